@@ -12,6 +12,7 @@ def recheck(sid, checks):
     checks = checks or list(meta['checks_run'])
     rc, _ = sh('git diff --quiet', cwd='/repo'); assert rc == 0, '/repo has uncommitted changes'
     rc, out = sh(f'git apply {dest}/patch.diff', cwd='/repo'); assert rc == 0, out
+    sh('rm -rf /verif/build/evidence.bak && cp -r /verif/evidence /verif/build/evidence.bak')
     try:
         for c in checks:
             rc, out = sh(f'bin/check {c}', cwd='/verif')
@@ -22,6 +23,7 @@ def recheck(sid, checks):
             print(sid, meta['checks_run'][c]['summary'], '| first:', meta['checks_run'][c]['first'][:120], flush=True)
     finally:
         sh('git checkout -- .', cwd='/repo')
+        sh('rm -rf /verif/evidence && mv /verif/build/evidence.bak /verif/evidence')  # evidence must come from runs on the unchanged tree
         for f in os.listdir('/verif/replays'):
             if f.endswith('.json'): os.remove(os.path.join('/verif/replays', f))
     meta['detected_by'] = [c for c, r in meta['checks_run'].items() if r['violations'] > 0]
